@@ -92,7 +92,24 @@ def fluid_diff(fa, fb, rng):
         lo, hi = rng.uniform(275, 300, 3), rng.uniform(305, 345, 3)
         if prop_integral(pa, lo, hi) != prop_integral(pb, lo, hi):
             return "integral of %s (%s)" % (k, type(pa).__name__)
+        da, db = stored_fields(pa), stored_fields(pb)
+        if da != db:
+            bad = sorted(f for f in set(da) | set(db) if da.get(f) != db.get(f))
+            return "stored field %s of %s (%s): %r vs %r" % (bad[0], k, type(pa).__name__, da.get(bad[0]), db.get(bad[0]))
     return None
+
+
+def stored_fields(p):
+    """the fields a property class stores (its own to_dict), values normalised for comparison"""
+    out = {}
+    for k, v in p.to_dict().items():
+        if k.startswith("@"):
+            continue
+        try:
+            out[k] = np.asarray(v, float).round(15).tolist()
+        except Exception:
+            out[k] = repr(v)
+    return out
 
 
 def gen(rng):
@@ -119,7 +136,8 @@ def customise(net, kind, rng):
         net.junction["my_note"] = ["n%d" % i for i in range(len(net.junction))]
         net.junction["my_number"] = rng.uniform(0, 1, len(net.junction))
     elif kind == "fluid_const":
-        pp.create_constant_property(net, "my_const", 3.25)
+        from pandapipes.properties.fluids import FluidPropertyConstant
+        net.fluid.add_property("my_const", FluidPropertyConstant(3.25, warn_dependent_variables=bool(rng.random() < 0.6)))
     elif kind == "fluid_linear":
         pp.create_linear_property(net, "my_linear", 0.5, 2.0)
     elif kind == "fluid_poly":
@@ -253,6 +271,7 @@ def tie(ctx):
     from pandapipes.properties import fluids as F
     rng = np.random.default_rng([ctx.seed, 15])
     insts = [F.FluidPropertyInterExtra([280., 300., 340.], [1., 2., 4.]), F.FluidPropertyConstant(3.5),
+             F.FluidPropertyConstant(2.5, warn_dependent_variables=True),
              F.FluidPropertyLinear(0.5, 2.0), F.FluidPropertyPolynominal([280., 300., 320., 340.], [1., 1.4, 2.1, 3.3], 2),
              F.FluidPropertySutherland(1e-5, 273.0, 110.0)]
     classes = [n for n in dir(F) if n.startswith("FluidProperty") and n != "FluidProperty"]
@@ -272,6 +291,9 @@ def tie(ctx):
         if not same:
             bad.append({"class": type(p).__name__, "what": "from_dict(to_dict()) evaluates differently"})
         lo, hi = rng.uniform(275, 300, 3), rng.uniform(305, 345, 3)
+        if stored_fields(p) != stored_fields(q):
+            bad.append({"class": type(p).__name__, "what": "from_dict(to_dict()) changes a stored field",
+                        "original": stored_fields(p), "loaded": stored_fields(q)})
         if prop_integral(p, lo, hi) != prop_integral(q, lo, hi):
             bad.append({"class": type(p).__name__, "what": "from_dict(to_dict()) integrates differently",
                         "original": prop_integral(p, lo, hi), "loaded": prop_integral(q, lo, hi)})
